@@ -42,11 +42,11 @@ struct Form {
   build: fn(lit: &str, value: &str, n: usize) -> (String, Vec<(String, Option<String>, bool)>),
 }
 
-const TS: &[&str] = &["ts", "tsx", "d.ts"];
-const TSX: &[&str] = &["ts", "tsx"];
+const TS: &[&str] = &["ts", "tsx", "d.ts", "mts", "d.mts"];
+const TSX: &[&str] = &["ts", "tsx", "mts"];
 const JS: &[&str] = &["js", "jsx", "mjs"];
-const CODE: &[&str] = &["ts", "tsx", "js", "jsx", "mjs"];
-const ALL: &[&str] = &["ts", "tsx", "js", "jsx", "mjs", "d.ts"];
+const CODE: &[&str] = &["ts", "tsx", "js", "jsx", "mjs", "mts"];
+const ALL: &[&str] = &["ts", "tsx", "js", "jsx", "mjs", "d.ts", "mts", "d.mts"];
 const JSX: &[&str] = &["tsx", "jsx"];
 
 // Every builder returns the statement text in which the literal appears
@@ -91,7 +91,7 @@ fn forms() -> Vec<Form> {
     Form { name: "source-mapping-url", place: Place::Trailing, media: CODE, literal: false, build: |_, v, _| (format!("//# sourceMappingURL={v}"), vec![("source-map-url:bare".into(), None, false)]) },
     // statements that declare no dependency
     Form { name: "plain-const", place: Place::Body, media: CODE, literal: true, build: |_, _, n| (format!("export const c{n} = 1;\n"), vec![]) },
-    Form { name: "plain-declare", place: Place::Body, media: &["d.ts"], literal: true, build: |_, _, n| (format!("export declare const c{n}: number;\n"), vec![]) },
+    Form { name: "plain-declare", place: Place::Body, media: &["d.ts", "d.mts"], literal: true, build: |_, _, n| (format!("export declare const c{n}: number;\n"), vec![]) },
     Form { name: "commented-import", place: Place::Body, media: ALL, literal: true, build: |l, _, _| (format!("// import x from {l};\n"), vec![]) },
     Form { name: "import-in-string", place: Place::Body, media: CODE, literal: true, build: |_, _, n| (format!("const s{n} = \"import('./nope.ts')\";\n"), vec![]) },
   ]
@@ -200,7 +200,7 @@ fn collect(info: &ModuleInfo) -> Vec<Reported> {
   out
 }
 
-const MEDIA: &[&str] = &["ts", "js", "tsx", "jsx", "d.ts", "mjs"];
+const MEDIA: &[&str] = &["ts", "js", "tsx", "jsx", "d.ts", "mjs", "mts", "d.mts"];
 
 pub struct GenProgram {
   pub ext: &'static str,
@@ -501,7 +501,7 @@ fn body(max_items: usize) -> impl Fn(&Ch) -> Run + Sync + Send {
         }
       }
     }
-    run.state_key = hash_of(&full);
+    run.state_key = hash_of(&(ext, &full));
     run.nontrivial = !expected.is_empty() && (full.bytes().any(|b| b >= 0x80) || crlf || expected.len() >= 2);
     run.outcome_key = hash_of(&got);
     if ch.describe() {
@@ -659,7 +659,7 @@ pub fn prop(tier: Tier) -> Prop {
         name: "programs",
         body: Box::new(body(2)),
         modes: vec![Mode::Deviations(1), Mode::Deviations(2)],
-        what: "all programs of <= 2 items over the 28-form alphabet x 6 media types (complete), spelling / quote / trivia / CRLF / BOM / shebang choices deviation-bounded",
+        what: "all programs of <= 2 items over the 28-form alphabet x 8 media types (complete), spelling / quote / trivia / CRLF / BOM / shebang choices deviation-bounded",
       },
       Part {
         name: "corpus",
@@ -673,7 +673,7 @@ pub fn prop(tier: Tier) -> Prop {
         name: "programs",
         body: Box::new(body(3)),
         modes: vec![Mode::Deviations(1), Mode::Deviations(2), Mode::Deviations(3)],
-        what: "all programs of <= 3 items over the form alphabet x 6 media types; spelling/trivia/line-ending choices deviation-bounded",
+        what: "all programs of <= 3 items over the form alphabet x 8 media types; spelling/trivia/line-ending choices deviation-bounded",
       },
       Part {
         name: "corpus",
